@@ -254,3 +254,140 @@ def zero_width(spec, ty, modname, _depth=0):
         ms = b.all_members()
         return len(ms) == 1 and zero_width(spec, ms[0].ty, r.mod, _depth + 1)
     return False
+
+
+# ---------------------------------------------------------------------------
+# generic "generated spec x type x value x codec" check
+
+import os as _os
+from .runner import Check as _Check, hyp_run as _hyp_run
+
+
+class Ctx(object):
+    """One oracle invocation: compiled spec c, AST spec, type and value."""
+    __slots__ = ('c', 'spec', 'modname', 'name', 'ty', 'v', 'codec', 'ne', 'rec', 'shard', 'extra',
+                 '_feats')
+
+    def __init__(self, **kw):
+        self.extra = {}
+        self._feats = None
+        for k, v in kw.items():
+            setattr(self, k, v)
+
+    def feats(self):
+        if self._feats is None:
+            self._feats = sorted(type_features(self.spec, self.ty, self.modname)) + ['codec:' + self.codec]
+        return self._feats
+
+    def case(self, **extra):
+        e = dict(self.extra)
+        e.update(extra)
+        return mk_case(self.spec, self.modname, self.name, self.v, codec=self.codec,
+                       numeric_enums=self.ne, **e)
+
+    def fail(self, kind, msg, exc=None, **extra):
+        self.rec.fail(Failure(kind, msg, self.case(**extra), self.feats(),
+                              exc_sig(exc) if exc is not None else None))
+
+    def encode(self, **kw):
+        """Library encode with checks on.  Returns bytes, or None when the case is
+        outside the property (declared unsupported / rejected by the library's own checks)."""
+        try:
+            return self.c.encode(self.name, self.v, check_types=True, check_constraints=True, **kw)
+        except NotImplementedError:
+            self.rec.cls('declared-unsupported')
+        except (A_EncodeError, A_ConstraintsError) as ex:
+            self.rec.cls('rejected-by-library:' + type(ex).__name__)
+        except Exception as ex:
+            # an encoder crash is C01's business; this check needs an encoding to start from
+            self.rec.cls('encode-crash(C01):' + type(ex).__name__)
+        return None
+
+
+class SpecValueCheck(_Check):
+    codecs = ['ber']
+    quick_n = 60
+    thorough_n = 1200
+    max_types = 3
+    max_values = 4
+    numeric_enums_variants = (False, True)
+
+    def profile(self, tier, shard):
+        p = gen.Profile()
+        if tier == 'thorough':
+            p.max_types, p.max_depth = 6, 4
+        if _os.environ.get('ASN1V_SMALL') == '1':
+            p.max_types, p.max_depth, p.max_members, p.max_modules = 2, 2, 3, 1
+        return p
+
+    def valcfg(self, tier, shard):
+        return values.ValCfg(numeric_enums=shard['ne'], big=shard.get('big', False))
+
+    def type_filter(self, shard):
+        return None
+
+    def shards(self, tier):
+        out = []
+        for codec in self.codecs:
+            for ne in self.numeric_enums_variants:
+                out.append({'codec': codec, 'ne': ne})
+        i = 0
+        while len(out) < 16:
+            out.append({'codec': self.codecs[i % len(self.codecs)], 'ne': False, 'extra': i,
+                        'big': tier == 'thorough'})
+            i += 1
+        return out
+
+    def oracle(self, x):
+        raise NotImplementedError
+
+    def compile(self, spec, shard, rec):
+        return compile_spec(spec, shard['codec'], shard['ne'], rec)
+
+    def run_shard(self, shard, tier, seed, rec):
+        scale = float(_os.environ.get('ASN1V_SCALE', '1'))
+        n = max(1, int((self.quick_n if tier == 'quick' else self.thorough_n) * scale))
+        strat = spec_cases(self.profile(tier, shard), self.valcfg(tier, shard),
+                           max_types=self.max_types, max_values=self.max_values,
+                           type_filter=self.type_filter(shard))
+
+        def body(case, rec):
+            spec, items = case
+            if not items:
+                return
+            c = self.compile(spec, shard, rec)
+            if c is None:
+                return
+            rec.cls('modules')
+            for modname, name, vals in items:
+                ty = dict(spec.by_name[modname].types)[name]
+                for v in vals:
+                    x = Ctx(c=c, spec=spec, modname=modname, name=name, ty=ty, v=v,
+                            codec=shard['codec'], ne=shard['ne'], rec=rec, shard=shard)
+                    self.oracle(x)
+        _hyp_run(strat, body, seed, n, rec, shrink=shard.get('_shrink', False),
+                 timeout=shard.get('_timeout'))
+
+    def replay(self, case, rec):
+        spec, modname, name, ty, v = load_case(case)
+        codec, ne = case['codec'], case.get('numeric_enums', False)
+        shard = {'codec': codec, 'ne': ne}
+        shard.update(case.get('shard', {}))
+        c = self.compile_replay(spec, shard, case)
+        x = Ctx(c=c, spec=spec, modname=modname, name=name, ty=ty, v=v, codec=codec, ne=ne,
+                rec=rec, shard=shard)
+        x.extra = {k: case[k] for k in case.get('extra_keys', []) if k in case}
+        self.replay_oracle(x, case)
+
+    def compile_replay(self, spec, shard, case):
+        return asn1tools.compile_string(spec.text(), shard['codec'], numeric_enums=shard['ne'])
+
+    def replay_oracle(self, x, case):
+        self.oracle(x)
+
+    def sample(self, x, **extra):
+        if x.rec.evaluations % 101 == 0:
+            s = {'codec': x.codec, 'numeric_enums': x.ne, 'type': x.name,
+                 'module_text': x.spec.text(), 'value': jsonio.enc(x.v)}
+            s.update(extra)
+            x.rec.sample(s)
